@@ -25,7 +25,9 @@ PROP = {
              "value records from a boundary pool (0, 0.5, 1-1e-18, 1, 1+1e-18, ties at 3/5/100/200, 2^53+1, active=0 with total>0); 90% of "
              "the cases run on a CacheContext branch with the module Begin/EndBlock functions in app order, 10% are consecutive windows of "
              "one committed chain driven through the real ABCI BeginBlock/EndBlock/Commit; distinct = distinct sha1 of the case; "
-             "non-trivial = at least one epoch-end block returned a non-empty update list"),
+             "non-trivial = at least one epoch-end block returned a non-empty update list. The first three cases are directed observations "
+             "(tag obs-C06-empty-validator-set: all operators opt out / fall below the minimum self delegation / are jailed in one epoch: EndBlock "
+             "removes every validator and the real CometBFT code refuses the list) - they satisfy C06 and are reported for C11"),
     "explanation": ("Theorems (Coq) about the executable model of dogfood EndBlock / ApplyValidatorChanges / SortByPower for ALL previous "
                     "validator sets, candidate lists and maxima; the model is tied to the code by running both on the same generated "
                     "histories (returned updates in order, stored set, total power, stored updates, marker compared after every block), "
@@ -40,10 +42,11 @@ PROP = {
         "Go's sort.Slice is modelled by a verified insertion sort; they agree whenever the comparator is a strict total order on the elements "
         "(distinct operator addresses / distinct (power,key) pairs)",
         "the SDK slashing hooks called by ApplyValidatorChanges are assumed to return nil",
-        "CometBFT's validator-set update rules (duplicate / negative / unknown removal) are transcribed as cmt_apply, not executed",
+        "CometBFT's validator-set update rules (duplicate / negative / unknown removal / empty result) are transcribed as cmt_apply / cmt_code; the harness also runs the REAL cometbft types.ValidatorSet.UpdateWithChangeSet on (previous set, returned updates) of every block and the monitor requires both to agree",
     ],
     "assumptions": [
-        "the consensus-key registry is injective (no two operators share a key) and every registered key has its reverse lookup: property C07; "
+        "the consensus-key registry is injective (no two operators share a key) and every registered key has its reverse lookup: property C07. "
+        "Discharged for every reachable state of the registry model coq/Dogfood (C06/Link.v: C06_result_reachable, C06_stored_agree_reachable); "
         "without them the statement is refuted (C06_shared_key_refuted, C06_missing_reverse_lookup_refuted)",
         "GetVotePowerForChainID does not fail (every active operator has a USD value record); the failing branch is modelled and refuted "
         "(C06_power_error_refuted) but not reachable through the generated operations",
